@@ -17,6 +17,11 @@ counts, element sizes, rectangles and strides
                     (solid blocks, both revisions);
 * `gr_refines_array`  any sequence of valid region writes / strided reads, starting from a NEW image, refines
                     a reference `H × W` array initialised with the fill pixel (same shape as `C03.slab_refines_array`);
+* `gr_ids_are_views`  several RI ids on one image (`GRselect`/`GRendaccess`/`GRsetcompress`/reopen interleaved with
+                    region writes and reads through ANY open id): one reference array per image whatever id is used,
+                    `FAIL` exactly through a released id; `gr_hasData_iff_element` (the `data_modified`/`Hlength`
+                    bookkeeping decides `new_image` right in every reachable state), `gr_write_release_read`,
+                    `gr_id_calls_eq` (byte layer);
 * byte layer: `gr_read_interlace`, `gr_write_read_bytes` (buffer interpreted in the create interlace, produced
   in the requested one, through `DFKconvert`), `gr_reopen_preserves`, palette round trip `lut_write_read`. -/
 namespace H4.Props.C09Region
@@ -491,5 +496,349 @@ theorem lut_unsupported_refused (ri : RI) (ncomps : Nat) (u8 : Bool) (il n : Nat
 theorem lut_absent (ri : RI) (buf : List UInt8) (h : ri.lut = none) :
     GRreadlut ri buf = buf ∧ GRgetlutinfo ri = (0, 0, -1, 0) := by
   simp [GRreadlut, GRgetlutinfo, h]
+
+/-! ## several RI ids on one image: ids are views of one image state
+
+`GRcreate`/`GRselect` hand out atoms for one `ri_info_t`. The model (`Book`, `Img` in `H4.GRegion`) takes the decision
+"the image has data" (`new_image`, `image_data`) from `img_tag/ref`, `data_modified` and `Hlength` – exactly the three
+things the C looks at – while the element itself is the logical content. `Coherent` is the invariant that makes the
+two agree; every call preserves it (`coherent_*` in `H4/Lemmas/GRegion.lean`), hence `gr_ids_are_views`. -/
+
+/-! ### the refinement -/
+
+/-- calls on ONE image through handles `k` (reopen = release every id, `GRend`, `Hclose`, `Hopen`, `GRstart`) -/
+inductive IdOp (α : Type) where
+  | select (k : Nat)
+  | endaccess (k : Nat)
+  | setcompress (k : Nat)
+  | write (k : Nat) (r : Req) (vals : List α)
+  | read (k : Nat) (r : Req)
+  | reopen
+
+def IdOp.Valid {α} (W H : Nat) : IdOp α → Prop
+  | .write _ r vals => C09Region.Valid W H r ∧ vals.length = r.cx * r.cy
+  | .read _ r => C09Region.Valid W H r
+  | _ => True
+
+/-- implementation side: `Img` (element + `ri_info_t` bookkeeping); `none` = `FAIL` -/
+def stepIds {α} (v : Variant) (W H : Nat) (f : α) (im : Img α) : IdOp α → Img α × Option (List α)
+  | .select k =>
+    match im.bk.select k with
+    | some b => ({ im with bk := b }, some [])
+    | none => (im, none)
+  | .endaccess k =>
+    match im.bk.endaccess k with
+    | some b => ({ im with bk := b }, some [])
+    | none => (im, none)
+  | .setcompress k =>
+    if im.bk.ids.contains k then
+      match im.bk.setcompress with
+      | some b => ({ im with bk := b }, some [])
+      | none => (im, none)
+    else (im, none)
+  | .write k r vals => ((im.write v W H f k r vals).1, if (im.write v W H f k r vals).2 then some [] else none)
+  | .read k r =>
+    ((im.read v W H f k r).1, (im.read v W H f k r).2.map fun
+      | .inr px => px
+      | .inl n => List.replicate n f)
+  | .reopen => (im.reopen v, some [])
+
+/-- specification side: the open handles, "is compressed", and ONE `H × W` array whatever handle is used -/
+structure Ref (α : Type) where
+  ids : List Nat
+  comp : Bool
+  a : Arr α
+
+def stepRef {α} (s : Ref α) : IdOp α → Ref α × Option (List α)
+  | .select k => if s.ids.contains k then (s, none) else ({ s with ids := k :: s.ids }, some [])
+  | .endaccess k => if s.ids.contains k then ({ s with ids := s.ids.erase k }, some []) else (s, none)
+  | .setcompress k => if s.ids.contains k && !s.comp then ({ s with comp := true }, some []) else (s, none)
+  | .write k r vals => if s.ids.contains k then ({ s with a := assign s.a (cellsOf r) vals }, some []) else (s, none)
+  | .read k r => if s.ids.contains k then (s, some ((cellsOf r).map s.a)) else (s, none)
+  | .reopen => ({ s with ids := [] }, some [])
+
+def runIds {α} (v : Variant) (W H : Nat) (f : α) : Img α → List (IdOp α) → Img α × List (Option (List α))
+  | im, [] => (im, [])
+  | im, op :: ops =>
+    let (im', o) := stepIds v W H f im op
+    let (im'', os) := runIds v W H f im' ops
+    (im'', o :: os)
+
+def runRef {α} : Ref α → List (IdOp α) → Ref α × List (Option (List α))
+  | s, [] => (s, [])
+  | s, op :: ops =>
+    let (s', o) := stepRef s op
+    let (s'', os) := runRef s' ops
+    (s'', o :: os)
+
+/-- same open handles, same compression flag, bookkeeping coherent with the element, element represents the array -/
+def Sim {α} (f : α) (W H : Nat) (im : Img α) (s : Ref α) : Prop :=
+  im.bk.ids = s.ids ∧ im.bk.buffered = s.comp ∧ Coherent im.st im.bk ∧ RepSt f W H im.st s.a
+
+theorem step_ids_refines {α} (v : Variant) (hv : v.f15Fixed = true) (hlf : v.lateFill = true) (W H : Nat) (f : α)
+    (im : Img α) (s : Ref α) (op : IdOp α) (hval : op.Valid W H) (h : Sim f W H im s) :
+    Sim f W H (stepIds v W H f im op).1 (stepRef s op).1 ∧ (stepIds v W H f im op).2 = (stepRef s op).2 := by
+  obtain ⟨hids, hcomp, hco, hrep⟩ := h
+  cases op with
+  | select k =>
+    simp only [stepIds, stepRef]
+    cases hs : im.bk.select k with
+    | none =>
+      have : s.ids.contains k = true := by
+        rw [← hids]; unfold Book.select at hs; split at hs <;> simp_all
+      simp only [this, if_true]
+      exact ⟨⟨hids, hcomp, hco, hrep⟩, trivial⟩
+    | some b =>
+      obtain ⟨c, i, bu, nk⟩ := coherent_select im.st im.bk b k hco hs
+      rw [hids] at nk
+      simp only [nk, Bool.false_eq_true, if_false]
+      exact ⟨⟨by simp [i, hids], by simp [bu, hcomp], c, hrep⟩, trivial⟩
+  | endaccess k =>
+    simp only [stepIds, stepRef]
+    cases hs : im.bk.endaccess k with
+    | none =>
+      have : s.ids.contains k = false := by
+        rw [← hids]; unfold Book.endaccess at hs; split at hs <;> simp_all
+      simp only [this, Bool.false_eq_true, if_false]
+      exact ⟨⟨hids, hcomp, hco, hrep⟩, trivial⟩
+    | some b =>
+      obtain ⟨c, i, bu, nk⟩ := coherent_endaccess im.st im.bk b k hco hs
+      rw [hids] at nk
+      simp only [nk, if_true]
+      exact ⟨⟨by simp [i, hids], by simp [bu, hcomp], c, hrep⟩, trivial⟩
+  | setcompress k =>
+    simp only [stepIds, stepRef]
+    rw [hids]
+    cases hk : s.ids.contains k with
+    | false => simp only [Bool.false_and, Bool.false_eq_true, if_false]; exact ⟨⟨hids, hcomp, hco, hrep⟩, trivial⟩
+    | true =>
+      simp only [Bool.true_and, if_true]
+      cases hs : im.bk.setcompress with
+      | none =>
+        have : s.comp = true := by
+          rw [← hcomp]; unfold Book.setcompress at hs; split at hs <;> simp_all
+        simp only [this, Bool.not_true, Bool.false_eq_true, if_false]
+        exact ⟨⟨hids, hcomp, hco, hrep⟩, trivial⟩
+      | some b =>
+        obtain ⟨c, i, bu, nb⟩ := coherent_setcompress im.st im.bk b hco hs
+        rw [hcomp] at nb
+        simp only [nb, Bool.not_false, if_true]
+        exact ⟨⟨by simp [i, hids], by simp [bu], c, hrep⟩, trivial⟩
+  | write k r vals =>
+    obtain ⟨⟨hs, hi⟩, hl⟩ := hval
+    simp only [stepIds, stepRef]
+    rw [← hids]
+    cases hk : im.bk.ids.contains k with
+    | false =>
+      simp only [Img.write, hk, Bool.not_false, if_true, Bool.false_eq_true, if_false]
+      exact ⟨⟨hids, hcomp, hco, hrep⟩, trivial⟩
+    | true =>
+      obtain ⟨hwf, hr⟩ := hrep
+      have hw := grWrite_eq v W H f r vals im.st (Or.inl hv) hs hi hl hwf
+      obtain ⟨cg, tg, ig, bg⟩ := coherent_getaid im.st im.bk true hco
+      simp only [Img.write, hk, Bool.not_true, Bool.false_eq_true, if_false, hs, hi, Bool.and_false, Bool.or_false,
+        view_eq im hco, hw, if_true]
+      have hst := step_refines v W H f im.st s.a (.write r vals) (Or.inl hv) ⟨⟨hs, hi⟩, hl⟩ ⟨hwf, hr⟩
+      simp only [stepImg, stepArr, hw, Option.getD_some, and_true] at hst
+      refine ⟨⟨?_, ?_, coherent_wrote _ _ tg rfl, hst⟩, trivial⟩
+      · simp [Book.wrote, ig]
+      · simp [Book.wrote, bg, hcomp]
+  | read k r =>
+    obtain ⟨hs, hi⟩ := hval
+    simp only [stepIds, stepRef]
+    rw [← hids]
+    cases hk : im.bk.ids.contains k with
+    | false =>
+      simp only [Img.read, hk, Bool.not_false, if_true, Bool.false_eq_true, if_false, Option.map_none]
+      exact ⟨⟨hids, hcomp, hco, hrep⟩, trivial⟩
+    | true =>
+      have hst := step_refines v W H f im.st s.a (.read r) (Or.inl hv) ⟨hs, hi⟩ hrep
+      simp only [stepImg, stepArr] at hst
+      simp only [Img.read, hk, Bool.not_true, Bool.false_eq_true, if_false, hs, hi, Bool.and_false, Bool.or_false,
+        view_eq im hco, if_true]
+      constructor
+      · split
+        · obtain ⟨cg, _, ig, bg⟩ := coherent_getaid im.st im.bk false hco
+          exact ⟨by simp [ig, hids], by simp [bg, hcomp], cg, hrep⟩
+        · exact ⟨hids, hcomp, hco, hrep⟩
+      · rw [← hst.2]
+        have hsome : (grRead v W H f r im.st).isSome = true := by
+          cases he : im.st.elem with
+          | none => rw [grRead_none v W H f r im.st hs hi he]; rfl
+          | some e =>
+            have hlen : e.length = W * H := by simpa [Store.WF, he] using hrep.1
+            rw [grRead_eq v W H f r im.st hs hi e he hlen]; rfl
+        cases hg : grRead v W H f r im.st with
+        | none => rw [hg] at hsome; cases hsome
+        | some x => cases x <;> rfl
+  | reopen =>
+    simp only [stepIds, stepRef, Img.reopen]
+    refine ⟨⟨rfl, ?_, coherent_reopened v _ _ hco, ?_⟩, trivial⟩
+    · show im.bk.reopened.buffered = s.comp
+      simp [Book.reopened, Book.closeAid, hcomp]
+    · obtain ⟨hwf, hr⟩ := hrep
+      refine ⟨?_, hr⟩
+      unfold Store.WF at *
+      cases he : im.st.elem <;> simp_all
+
+/-- **Ids are views of one image.** For every image size and fill pixel, every finite sequence of `GRselect`,
+    `GRendaccess`, `GRsetcompress`, valid region writes and (strided) reads THROUGH ANY HANDLE, and reopen – starting from
+    any state whose bookkeeping agrees with its element (`Sim`; in particular a new image, `new_image_sim`) – every call
+    returns what the reference machine returns: one `H × W` array per image whatever id is used, a set of open handles,
+    `FAIL` exactly for calls through a handle that is not open (and a second `GRsetcompress`). So a read through any open
+    id returns the pixels last written through any id – also for data that so far exist only in the buffer of a
+    compressed element, also after the id that wrote them was released, also for the first write of a new image – and
+    never-written pixels are the fill pixel. The decision "the image has data" is taken from `tagSet`/`data_modified`/
+    `Hlength` as the C takes it (`Book.hasData`), not from the element. -/
+theorem gr_ids_are_views {α} (v : Variant) (hv : v.f15Fixed = true) (hlf : v.lateFill = true) (W H : Nat) (f : α) :
+    ∀ (ops : List (IdOp α)) (im : Img α) (s : Ref α), (∀ op ∈ ops, op.Valid W H) → Sim f W H im s →
+    (runIds v W H f im ops).2 = (runRef s ops).2 ∧ Sim f W H (runIds v W H f im ops).1 (runRef s ops).1 := by
+  intro ops
+  induction ops with
+  | nil => intro im s _ h; simp [runIds, runRef, h]
+  | cons op ops ih =>
+    intro im s hval h
+    obtain ⟨h1, h2⟩ := step_ids_refines v hv hlf W H f im s op (hval op (by simp)) h
+    obtain ⟨g1, g2⟩ := ih _ _ (fun o ho => hval o (by simp [ho])) h1
+    simp only [runIds, runRef]
+    exact ⟨by rw [h2, g1], g2⟩
+
+/-- a new image (`GRcreate`: one id, no tag/ref, no access id, `data_modified = FALSE`) is the all-fill array -/
+theorem new_image_sim {α} (f : α) (W H k : Nat) :
+    Sim f W H ({ bk := { ids := [k] } } : Img α) { ids := [k], comp := false, a := fun _ => f } :=
+  ⟨rfl, rfl, ⟨by simp, by simp, by simp, by simp⟩, new_image_rep f W H⟩
+
+/-- the bookkeeping and the element agree in every reachable state: `new_image` is computed right -/
+theorem gr_hasData_iff_element {α} (v : Variant) (hv : v.f15Fixed = true) (hlf : v.lateFill = true) (W H k : Nat) (f : α)
+    (ops : List (IdOp α)) (hval : ∀ op ∈ ops, op.Valid W H) :
+    (runIds v W H f ({ bk := { ids := [k] } } : Img α) ops).1.bk.hasData
+      = (runIds v W H f ({ bk := { ids := [k] } } : Img α) ops).1.st.elem.isSome :=
+  hasData_eq _ _ (gr_ids_are_views v hv hlf W H f ops _ _ hval (new_image_sim f W H k)).2.2.2.1
+
+theorem assign_not_mem {α} : ∀ (cs : List (List Nat)) (vs : List α) (a : Arr α) (c : List Nat), c ∉ cs →
+    assign a cs vs c = a c := by
+  intro cs
+  induction cs with
+  | nil => intro vs a c _; cases vs <;> rfl
+  | cons c' cs ih =>
+    intro vs a c hc
+    cases vs with
+    | nil => rfl
+    | cons v vs =>
+      simp only [List.mem_cons, not_or] at hc
+      simp only [assign]
+      rw [ih vs _ c hc.2]
+      simp [upd, hc.1]
+
+theorem assign_map_self {α} : ∀ (cs : List (List Nat)) (vs : List α) (a : Arr α), cs.Nodup → vs.length = cs.length →
+    cs.map (assign a cs vs) = vs := by
+  intro cs
+  induction cs with
+  | nil => intro vs a _ hl; cases vs <;> simp_all
+  | cons c cs ih =>
+    intro vs a hnd hl
+    cases vs with
+    | nil => simp at hl
+    | cons v vs =>
+      obtain ⟨hc, hnd'⟩ := List.nodup_cons.mp hnd
+      simp only [List.map_cons, assign]
+      rw [assign_not_mem cs vs _ c hc]
+      congr 1
+      · simp [upd]
+      · exact ih vs _ hnd' (by simpa using hl)
+
+/-- **Write through one id, release it, read through another** (the access id stays open: a compressed image is still
+    only in its buffer): the read returns the written pixels. Any coherent state, any two distinct open handles. -/
+theorem gr_write_release_read {α} (v : Variant) (hv : v.f15Fixed = true) (hlf : v.lateFill = true) (W H : Nat) (f : α)
+    (im : Img α) (s : Ref α) (h : Sim f W H im s) (k1 k2 : Nat) (hne : k1 ≠ k2) (h1 : s.ids.contains k1 = true)
+    (h2 : s.ids.contains k2 = true) (r : Req) (vals : List α) (hval : Valid W H r) (hl : vals.length = r.cx * r.cy) :
+    (runIds v W H f im [.write k1 r vals, .endaccess k1, .read k2 r]).2 = [some [], some [], some vals] := by
+  have hops : ∀ op ∈ [IdOp.write k1 r vals, .endaccess k1, .read k2 r], op.Valid W H := by
+    intro op ho
+    simp only [List.mem_cons, List.not_mem_nil, or_false] at ho
+    rcases ho with rfl | rfl | rfl
+    exacts [⟨hval, hl⟩, trivial, hval]
+  rw [(gr_ids_are_views v hv hlf W H f _ im s hops h).1]
+  have hk2 : (s.ids.erase k1).contains k2 = true := by
+    simp only [List.contains_eq_mem, decide_eq_true_eq] at *
+    exact (List.mem_erase_of_ne (Ne.symm hne)).mpr h2
+  simp only [runRef, stepRef, h1, hk2, if_true]
+  have hr := (valid_iff_sInRange W H r).mp hval
+  rw [assign_map_self (cellsOf r) vals s.a (scells_nodup _ _ _ _ hr) (by rw [cellsOf_length, hl])]
+
+example : (∀ op ∈ [IdOp.select 1, .setcompress 1, .write 0 ⟨1, 0, 2, 3, 2, 2⟩ [6, 7, 8, 9], .endaccess 0, .read 1 ⟨0, 3, 1, 1, 5, 1⟩],
+    op.Valid (α := Nat) 5 4) := by
+  intro op ho
+  simp only [List.mem_cons, List.not_mem_nil, or_false] at ho
+  rcases ho with rfl | rfl | rfl | rfl | rfl
+  · trivial
+  · trivial
+  · exact ⟨by decide, by decide⟩
+  · trivial
+  · show Valid 5 4 _
+    decide
+
+/-- new 5×4 image, compressed through a second id; first (strided) write through id 0, id 0 released while the data are
+    still in the coder's buffer; id 1 reads them, writes more, the released id is refused, a third id of the next
+    session reads everything -/
+example : (runIds Variant.current 5 4 0 ({ bk := { ids := [0] } } : Img Nat)
+    [.select 1, .setcompress 1, .write 0 ⟨1, 0, 2, 3, 2, 2⟩ [6, 7, 8, 9], .endaccess 0, .read 1 ⟨0, 3, 1, 1, 5, 1⟩,
+     .write 1 ⟨3, 3, 1, 1, 2, 1⟩ [1, 2], .read 0 ⟨0, 3, 1, 1, 5, 1⟩, .reopen, .read 1 ⟨0, 0, 1, 1, 1, 1⟩, .select 2,
+     .read 2 ⟨1, 0, 2, 3, 2, 2⟩]).2
+    = [some [], some [], some [], some [], some [0, 8, 0, 9, 0], some [], none, some [], none, some [], some [6, 7, 8, 1]] := by
+  decide
+
+/-- WHAT-IF, not the code: a `GRendaccess` that also cleared `data_modified` ("nothing is left pending"). -/
+def endaccessClearing (k : Nat) (b : Book) : Option Book := (b.endaccess k).map fun b' => { b' with dataModified := false }
+
+/-- …then `Coherent` (hence `gr_ids_are_views`) breaks as soon as one of two ids of a compressed new image is released
+    after the first write: the element exists (in the buffer), the bookkeeping says "no data", and the other id reads
+    fill pixels instead of the pixels written. With the real `Book.endaccess` the same read returns the data. -/
+example :
+    let im0 : Img Nat := { bk := { ids := [0, 1], buffered := true, tagSet := true, aid := true, aidW := true } }
+    let im1 := (im0.write Variant.current 2 2 0 0 ⟨0, 0, 1, 1, 2, 1⟩ [5, 6]).1
+    let bad : Img Nat := { im1 with bk := (endaccessClearing 0 im1.bk).getD im1.bk }
+    let good : Img Nat := { im1 with bk := (im1.bk.endaccess 0).getD im1.bk }
+    bad.st.elem = some [5, 6, 0, 0] ∧ bad.bk.hasData = false ∧
+    (bad.read Variant.current 2 2 0 1 ⟨0, 0, 1, 1, 2, 1⟩).2 = some (.inl 2) ∧
+    good.bk.hasData = true ∧ (good.read Variant.current 2 2 0 1 ⟨0, 0, 1, 1, 2, 1⟩).2 = some (.inr [5, 6]) := by
+  decide
+
+/-! ### byte layer -/
+
+/-- **The id-taking calls are the plain calls.** With coherent bookkeeping and an open handle, `GRwriteimage`/`GRreadimage`
+    through that handle do to the image exactly what the single-id model functions do (so `gr_write_read_bytes`,
+    `gr_read_interlace`, … hold through every id); only the bookkeeping moves, and it stays coherent. -/
+theorem gr_id_calls_eq (v : Variant) (ri : RI) (k : Nat) (r : Req) (data : List UInt8) (hco : Coherent ri.st ri.bk)
+    (hk : ri.bk.ids.contains k = true) (hval : Valid ri.W ri.H r) :
+    (GRwriteimageId v ri k r data).2 = (GRwriteimage v ri r data).isSome ∧
+    (∀ ri', GRwriteimage v ri r data = some ri' →
+      (GRwriteimageId v ri k r data).1 = { ri' with bk := (ri.bk.getaid true).wrote } ∧
+      (ri'.st.elem.isSome = true → Coherent ri'.st (ri.bk.getaid true).wrote)) ∧
+    (GRreadimageId v ri k r).2 = GRreadimage v ri r ∧ (GRreadimageId v ri k r).1.st = ri.st ∧
+    Coherent ri.st (GRreadimageId v ri k r).1.bk := by
+  obtain ⟨hs, hi⟩ := hval
+  have hview : ri.view = ri := by
+    unfold RI.view
+    rw [view_eq ⟨ri.st, ri.bk⟩ hco]
+  refine ⟨?_, ?_, ?_, ?_, ?_⟩
+  · simp only [GRwriteimageId, hk, hs, hi, hview, Bool.not_true, Bool.false_eq_true, if_false, Bool.and_false, Bool.or_false]
+    cases GRwriteimage v ri r data <;> rfl
+  · intro ri' hw
+    simp only [GRwriteimageId, hk, hs, hi, hview, hw, Bool.not_true, Bool.false_eq_true, if_false, Bool.and_false, Bool.or_false,
+      true_and]
+    intro he
+    exact coherent_wrote _ _ (coherent_getaid ri.st ri.bk true hco).2.1 he
+  · simp only [GRreadimageId, hk, hs, hi, hview, Bool.not_true, Bool.false_eq_true, if_false, Bool.and_false, Bool.or_false]
+  · simp only [GRreadimageId, hk, hs, hi, Bool.not_true, Bool.false_eq_true, if_false, Bool.and_false, Bool.or_false]
+  · simp only [GRreadimageId, hk, hs, hi, Bool.not_true, Bool.false_eq_true, if_false, Bool.and_false, Bool.or_false]
+    split
+    · exact (coherent_getaid ri.st ri.bk false hco).1
+    · exact hco
+
+/-- a call through a handle that is not open fails and changes nothing -/
+theorem gr_closed_id_refused (v : Variant) (ri : RI) (k : Nat) (r : Req) (data : List UInt8) (hk : ri.bk.ids.contains k = false) :
+    GRwriteimageId v ri k r data = (ri, false) ∧ GRreadimageId v ri k r = (ri, none) := by
+  simp only [GRwriteimageId, GRreadimageId, hk, Bool.not_false, if_true, and_self]
 
 end H4.Props.C09Region
